@@ -204,6 +204,33 @@ CLAIMS["C16"] = {
     "note": "Necessary conditions only. " + _TB,
 }
 
+CLAIMS["C18"] = {
+    "text": "Decides a table of structural safety obligations for the decoders (C18): about 50 guard rows - each listed "
+            "dangerous operation (byte read through a cursor, index/offset/length taken from file bytes, memcpy of a decoded "
+            "length, restart-array and filter-offset arithmetic, snappy literal and back-reference copies) is dominated on "
+            "every path by its bounds predicate (matched by implication); cursor advance and remaining-length decrease are "
+            "paired; shifts by non-constant amounts are bounded below the operand width (varint loops, masked filter "
+            "base_lg) and new unbounded shift/division sites are flagged; decoder loops consume input every round; every "
+            "parse result is consumed; no abort() is reachable on rejected input. General absence of out-of-bounds accesses "
+            "(relational pointer/length invariants across calls) and termination of binary searches are NOT decided.",
+    "design_ref": "DESIGN.md 5/C18",
+    "technique": "static analysis: table-driven guard dominance on the clang CFG, cursor-pairing and arithmetic-bound rules, liveness-based result consumption",
+    "note": "Partial by construction: the guard table is frozen from reading every decoder; an operation not in the table is "
+            "not checked. " + _TB,
+}
+CLAIMS["C19"] = {
+    "text": "Decides the structural clauses of C19: repair pipeline order; file-number counter above every number seen and "
+            "handed out; last sequence = max over surviving tables; every scanned table added; old MANIFESTs archived before "
+            "the new descriptor takes its fixed name, CURRENT switched last; repair archives and never deletes database "
+            "files; and the level-0 provenance rule - a table placed at level 0 must carry a freshly allocated number (or be "
+            "a re-emitted current file) because level-0 lookups are newest-number-first. The last rule reports the known "
+            "finding F1 (repair places surviving tables at level 0 under on-disk numbers). Contents after repair are not "
+            "decided.",
+    "design_ref": "DESIGN.md 5/C19, 7/F1",
+    "technique": "static analysis: call-order automata, counter-dominance and argument-provenance rules on the clang CFG",
+    "note": "F1 is a genuine defect of the unchanged tree (reproduction in findings/F1), listed in known_findings.json, not fixed. " + _TB,
+}
+
 _PENDING = ("check not built yet in this revision; the property is listed here so that it is not claimed "
             "without machinery (see DESIGN.md for the planned rules)")
 
